@@ -142,8 +142,14 @@ func nsCalls(baseName string) []fsx.Call {
 
 	cs = append(cs,
 		fsx.Call{Op: "Truncate", A: "/d/f", N: -1},
+		// argument values that select a DEFAULT (empty dir: the temp directory of the
+		// file system; empty pattern: the bare random name) are letters of their own:
+		// code that branches on them ("dir == \"\": leave it to the base") is reached
+		// by no named directory
 		fsx.Call{Op: "CreateTemp", A: "", B: "t*"},
 		fsx.Call{Op: "MkdirTemp", A: "", B: "m*"},
+		fsx.Call{Op: "CreateTemp", A: "", B: ""},
+		fsx.Call{Op: "MkdirTemp", A: "", B: ""},
 		fsx.Call{Op: "SetUMask", Perm: 0},
 		fsx.Call{Op: "SetUMask", Perm: 0o077},
 		fsx.Call{Op: "Getwd"},
